@@ -102,7 +102,7 @@ def resetValue (t : PTy) (old dflt : Val) : Val :=
   | _, _, _ => dflt
 
 /-- records the property allows after `set p v` (besides a refusal that changes nothing):
-    no source or blank text restores the default (blank text may also be ignored), any other text must
+    no source or blank text restores the default (a colour may also ignore blank text), any other text must
     read back as a value it denotes -/
 def setOutcomes (tab : List NamedColor) (r dflt : Rec) (p : Str) (t : PTy) (v : Option (Option Str)) : List Rec :=
   let old := (get r p).getD (.int 0)
@@ -112,8 +112,12 @@ def setOutcomes (tab : List NamedColor) (r dflt : Rec) (p : Str) (t : PTy) (v : 
   | some txt =>
     match t with
     | .string => (denote tab t old (txt.getD [])).map (set r p)      -- blanks are string content
-    | _ =>
+    | .colour =>
+      -- a colour keeps its value for an empty text (`mpt_color_pset` takes "no value" as "no change")
       if blank txt then [set r p d, r]
+      else (denote tab t old (txt.getD [])).map (set r p)
+    | _ =>
+      if blank txt then [set r p d]
       else (denote tab t old (txt.getD [])).map (set r p)
 
 /-- `n` names listed property `p`: equal without case, or (documented abbreviation length `k`) equal on
